@@ -31,11 +31,14 @@ Clauses (the `clause` field of a failing case), per text t, with m = PGPMessage.
                        sig.hashdata(m.message) minus the independently computed v4 trailer == spec.signed_octets(t)
   verify               (signed texts) pubkey.verify(m) before writing
   verify-after-readback (signed texts) pubkey.verify(PGPMessage.from_blob(str(m)))
+  verify-after-crlf-transit (signed texts) the armored text with every LF not preceded by CR turned into CR LF loads in
+                       PGPy with the same text modulo CR LF -> LF and verifies
   indep-verify         (signed texts) the independent reader + verifier accepts str(m): Ed25519 over SHA-256 of
                        spec.signed_octets(lines read) + hashed part of the signature packet + trailer
   pgpy-verifies-indep  (signed, representable texts) a message cleartext-signed by the independent side (own signature
                        packet built octet by octet, Ed25519 by `cryptography`, own armor) loads in PGPy with the same
                        text (modulo CR LF -> LF) and verifies under PGPy
+  pgpy-verifies-indep-crlf  the same foreign message written with CR LF line endings
 Only the adversarial list, all texts of length <= 2 and a seeded sample of the enumerated texts are actually signed;
 for every other enumerated text a fixed type 0x01 signature is attached so that the block is well formed, and the
 clauses escape, indep-readback, readback, signatures and signed-octets are evaluated.
@@ -45,6 +48,7 @@ import hashlib
 import itertools
 import multiprocessing
 import random
+import re
 import struct
 import warnings
 
@@ -63,7 +67,8 @@ from bounded.common import match_known  # noqa: E402
 # independent spec of RFC 4880 7.1
 # ---------------------------------------------------------------------------------------------------------------
 def lines_of(text):
-    return split_lines(text)
+    parts = text.split('\n')
+    return [ln[:-1] if ln.endswith('\r') else ln for ln in parts[:-1]] + parts[-1:]
 
 
 def _raw_lines(text):
@@ -86,13 +91,17 @@ def dash_unescape(text):
     return ''.join(ln[2:] if ln.startswith('- ') else ln for ln in _raw_lines(text))
 
 
+def octets_of_lines(lines, strip=True):
+    return b'\r\n'.join((ln.rstrip(' \t') if strip else ln).encode('utf-8') for ln in lines)
+
+
 def signed_octets(text):
-    return b'\r\n'.join(ln.rstrip(' \t').encode('utf-8') for ln in lines_of(text))
+    return octets_of_lines(lines_of(text))
 
 
 def canonical_unstripped(text):
     """what a signer that forgets to remove trailing blanks would hash (used only to classify failures)"""
-    return b'\r\n'.join(ln.encode('utf-8') for ln in lines_of(text))
+    return octets_of_lines(lines_of(text), strip=False)
 
 
 def has_trailing_blank(text):
@@ -170,7 +179,7 @@ def indep_sign_text(octets, created=1700000000):
     return bytes([0xC2, len(body)]) + body
 
 
-def indep_verify(s, octets_of=signed_octets):
+def indep_verify(s, strip=True):
     """independent reader + verifier over an armored cleartext message; -> bool"""
     K = keys()
     p = parse_cleartext(s)
@@ -182,7 +191,7 @@ def indep_verify(s, octets_of=signed_octets):
         return False
     if indep.HASHES[sg['halg']].upper() not in [h.upper() for h in p['hashes']]:
         return False
-    doc = octets_of('\n'.join(p['lines']))
+    doc = octets_of_lines(p['lines'], strip)
     return indep.verify(sg, K['indep_pub'], indep.sig_hash_input(sg, document=doc))
 
 
@@ -225,11 +234,36 @@ def trailer_of(sigbytes):
 # ---------------------------------------------------------------------------------------------------------------
 # the check of one text
 # ---------------------------------------------------------------------------------------------------------------
+def to_crlf(s):
+    """every LF that is not already preceded by CR becomes CR LF"""
+    return re.sub(r'(?<!\r)\n', '\r\n', s)
+
+
+def load_cleartext(blob):
+    """PGPMessage.from_blob that insists on getting a cleartext message back (with a non-ASCII character PGPy takes
+    the armored text for binary packet data and may return some other object without raising)"""
+    m = pgpy.PGPMessage.from_blob(blob)
+    try:
+        typ = m.type
+    except Exception as ex:
+        raise ValueError('loaded as an object whose type raises %s' % type(ex).__name__)
+    if typ != 'cleartext':
+        raise ValueError('loaded as a %s message, not as cleartext' % typ)
+    return m
+
+
 HEAD = '-----BEGIN PGP SIGNED MESSAGE-----\nHash: SHA256\n\n'
 SIGLINE = '\n-----BEGIN PGP SIGNATURE-----\n'
 
 
 def check_text(text, signed, stats):
+    try:
+        return _check_text(text, signed, stats)
+    except Exception as ex:           # an assertion of the harness about its own independent side
+        return [{'text': text, 'clause': 'harness', 'detail': 'harness error: %s: %s' % (type(ex).__name__, str(ex)[:80])}]
+
+
+def _check_text(text, signed, stats):
     """returns the list of failing cases [{'text', 'clause', 'detail'}]; stats is a Counter of evaluations"""
     K = keys()
     fails = []
@@ -288,16 +322,14 @@ def check_text(text, signed, stats):
     stats['readback'] += 1
     m2 = None
     try:
-        m2 = pgpy.PGPMessage.from_blob(s)
+        m2 = load_cleartext(s)
     except Exception as ex1:
         try:
-            m2 = pgpy.PGPMessage.from_blob(s.encode('utf-8'))
-            if m2.type != 'cleartext':
-                raise ValueError('loaded from UTF-8 bytes as a %s message' % m2.type)
+            m2 = load_cleartext(s.encode('utf-8'))
         except Exception as ex2:
             m2 = None
-            fail('readback', 'cannot-load: str: %s; utf-8 bytes: %s: %s'
-                 % (type(ex1).__name__, type(ex2).__name__, str(ex2)[:50]))
+            fail('readback', 'cannot-load: str: %s: %s; utf-8 bytes: %s: %s'
+                 % (type(ex1).__name__, str(ex1)[:40], type(ex2).__name__, str(ex2)[:40]))
     if m2 is not None:
         try:
             got = m2.message
@@ -329,11 +361,24 @@ def check_text(text, signed, stats):
                 fail('verify-after-readback', 'ends-with-CR' if not representable(text) else 'does not verify')
         except Exception as ex:
             fail('verify-after-readback', '%s: %s' % (type(ex).__name__, str(ex)[:60]))
+    # the same armored text with CR LF line endings (every LF not already preceded by CR)
+    if m2 is not None:
+        stats['verify-after-crlf-transit'] += 1
+        try:
+            m4 = load_cleartext(to_crlf(s))
+            if norm(m4.message) == norm(text) + '\r':
+                fail('verify-after-crlf-transit', 'CR-appended')
+            elif norm(m4.message) != norm(text):
+                fail('verify-after-crlf-transit', 'read back %r' % (m4.message[:60],))
+            elif not K['pub'].verify(m4):
+                fail('verify-after-crlf-transit', 'does not verify')
+        except Exception as ex:
+            fail('verify-after-crlf-transit', '%s: %s' % (type(ex).__name__, str(ex)[:60]))
     # independent verification of PGPy's output
     stats['indep-verify'] += 1
     try:
         if not indep_verify(s):
-            if has_trailing_blank(text) and indep_verify(s, canonical_unstripped):
+            if has_trailing_blank(text) and indep_verify(s, strip=False):
                 fail('indep-verify', 'trailing-blanks-signed')
             elif not representable(text):
                 fail('indep-verify', 'ends-with-CR')
@@ -348,10 +393,10 @@ def check_text(text, signed, stats):
         try:
             assert indep_verify(foreign), 'harness: the independent side rejects its own message'
             try:
-                m3 = pgpy.PGPMessage.from_blob(foreign)
+                m3 = load_cleartext(foreign)
             except Exception as ex:
                 m3 = None
-                fail('pgpy-verifies-indep', 'cannot-load: %s' % type(ex).__name__)
+                fail('pgpy-verifies-indep', 'cannot-load: %s: %s' % (type(ex).__name__, str(ex)[:40]))
             if m3 is not None:
                 if norm(m3.message) != norm(text):
                     fail('pgpy-verifies-indep', 'foreign message read as %r' % (m3.message[:60],))
@@ -365,6 +410,31 @@ def check_text(text, signed, stats):
             raise
         except Exception as ex:
             fail('pgpy-verifies-indep', '%s: %s' % (type(ex).__name__, str(ex)[:60]))
+        # the same foreign message written with CR LF line endings
+        stats['pgpy-verifies-indep-crlf'] += 1
+        try:
+            assert indep_verify(to_crlf(foreign)), 'harness: the independent side rejects its own CR LF message'
+            try:
+                m5 = load_cleartext(to_crlf(foreign))
+            except Exception as ex:
+                m5 = None
+                fail('pgpy-verifies-indep-crlf', 'cannot-load: %s: %s' % (type(ex).__name__, str(ex)[:40]))
+            if m5 is None:
+                pass
+            elif norm(m5.message) == norm(text) + '\r':
+                fail('pgpy-verifies-indep-crlf', 'CR-appended')
+            elif norm(m5.message) != norm(text):
+                fail('pgpy-verifies-indep-crlf', 'foreign message read as %r' % (m5.message[:60],))
+            elif not K['pub'].verify(m5):
+                alt = to_crlf(write_cleartext(text, 'SHA256', indep_sign_text(canonical_unstripped(text))))
+                if has_trailing_blank(text) and K['pub'].verify(pgpy.PGPMessage.from_blob(alt)):
+                    fail('pgpy-verifies-indep-crlf', 'trailing-blanks-signed')
+                else:
+                    fail('pgpy-verifies-indep-crlf', 'PGPy rejects the foreign signature')
+        except AssertionError:
+            raise
+        except Exception as ex:
+            fail('pgpy-verifies-indep-crlf', '%s: %s' % (type(ex).__name__, str(ex)[:60]))
     else:
         stats['pgpy-verifies-indep not evaluated (text ends with CR)'] += 1
     return fails
@@ -409,7 +479,7 @@ def nontrivial(text):
 
 def coarse(c):
     d = c['detail']
-    if d in ('trailing-blanks-signed', 'ends-with-CR'):
+    if d in ('trailing-blanks-signed', 'ends-with-CR', 'CR-appended'):
         return d
     if d.startswith('cannot-load'):
         return 'cannot-load'
@@ -504,7 +574,7 @@ def component(tier='quick', seed=0, known=()):
                                % (c['clause'], c['detail'], tally.counts[key + (None,)])})
     evaluations = sum(v for k, v in stats.items() if k in (
         'escape', 'indep-readback', 'signed-octets', 'readback', 'signatures', 'verify', 'verify-after-readback',
-        'indep-verify', 'pgpy-verifies-indep', 'construct'))
+        'verify-after-crlf-transit', 'pgpy-verifies-indep-crlf', 'indep-verify', 'pgpy-verifies-indep', 'construct'))
     return {
         'name': 'C11/cleartext-texts',
         'bound': 'all texts over the alphabet %r of length <= %d (%d texts) plus %d adversarial texts (dash lines, '
